@@ -371,7 +371,7 @@ def rule_r12(rep, program: Program):
                     # the flag must still hold the value returned by this call
                     if any(isinstance(n, ast.Name) and n.id == flag and isinstance(n.ctx, ast.Store) for n in ast.walk(x)):
                         break
-                    if isinstance(x, ast.If) and not x.orelse and x.body and isinstance(x.body[-1], (ast.Break, ast.Return, ast.Raise, ast.Continue)) and norm(x.test) in (flag, f"{flag} is True", f"{flag} == True", f"bool({flag})"):
+                    if isinstance(x, ast.If) and not x.orelse and x.body and isinstance(x.body[-1], (ast.Break, ast.Return, ast.Raise, ast.Continue)) and norm(x.test) in (flag, f"{flag} == True", f"bool({flag})"):
                         guard_at = j
                         break
                     if isinstance(x, ast.If) and x.orelse and norm(x.test) == flag and x.body and isinstance(x.body[-1], (ast.Break, ast.Return, ast.Raise, ast.Continue)):
@@ -416,7 +416,10 @@ def rule_r13(rep, program: Program):
             st = pm[st]
         test = st.test if isinstance(st, ast.If) else (st.value if isinstance(st, ast.Assign) else None)
         # the statement evaluating the criterion runs on every iteration that reaches the merge
-        conds = [(t, tr) for t, tr in execution_condition(f.node, st, stop_at=(ast.For,)) if not (isinstance(t, ast.Name) or (isinstance(t, ast.Compare) and isinstance(t.left, ast.Name) and norm(t.comparators[0]) == "None"))]
+        # tests of the flag returned by _build_tree (rule R12 decides whether they are tests of its truth) and
+        # `x is None` tests are not exemptions
+        flags = {n.targets[0].elts[0].id for n in ast.walk(lp) if isinstance(n, ast.Assign) and isinstance(n.targets[0], ast.Tuple) and isinstance(n.value, ast.Call) and norm(n.value.func) == "self._build_tree" and isinstance(n.targets[0].elts[0], ast.Name)}
+        conds = [(t, tr) for t, tr in execution_condition(f.node, st, stop_at=(ast.For,)) if not (isinstance(t, ast.Name) or {x.id for x in ast.walk(t) if isinstance(x, ast.Name)} <= flags | {"bool"} or (isinstance(t, ast.Compare) and isinstance(t.left, ast.Name) and norm(t.comparators[0]) == "None"))]
         exempt = None
         if isinstance(test, ast.BoolOp) and isinstance(test.op, ast.And):
             others = [v for v in test.values if not any(x is c for x in ast.walk(v))]
